@@ -39,6 +39,13 @@ pub struct ExoticReport {
 
 // ---- types from outside cgmath ----------------------------------------------------------------
 
+#[cfg(feature = "exotic-user-types")]
+pub use user_types::*;
+
+#[cfg(feature = "exotic-user-types")]
+mod user_types {
+use super::*;
+
 /// A user's own vector space.
 #[derive(Copy, Clone, Debug, PartialEq, Serialize, Deserialize)]
 pub struct UserVec {
@@ -157,6 +164,8 @@ impl cgmath::num_traits::Num for Interval {
         Err(())
     }
 }
+
+} // mod user_types
 
 /// A user's own rotation representation.
 #[derive(Clone, Debug, PartialEq, Serialize, Deserialize)]
@@ -280,8 +289,6 @@ exo!(
     Decomposed<Vector3<f64>, Option<Quaternion<f64>>>,
     Decomposed<Vector2<f64>, UserRot>,
     Decomposed<Vector3<f64>, Collide>,
-    Decomposed<UserVec, Quaternion<f64>>,
-    Decomposed<UserVec, UserRot>,
     Decomposed<Vector2<f64>, Vec<u8>>,
     Decomposed<Vector3<f32>, bool>,
     Decomposed<Vector3<f32>, char>,
@@ -294,10 +301,15 @@ exo!(
     Decomposed<Vector3<f64>, Wrapping<i32>>,
     Decomposed<Vector3<f64>, PhantomData<u8>>,
     Decomposed<Vector3<f64>, Decomposed<Vector2<f32>, Basis2<f32>>>,
-    Decomposed<Vector3<f64>, Euler<f64>>,
     Decomposed<Vector1<f64>, Vector3<Rad<f32>>>,
     Decomposed<Vector3<i64>, Quaternion<i64>>,
     Decomposed<Vector2<u64>, (u8, i8)>,
+);
+
+#[cfg(feature = "exotic-user-types")]
+exo!(
+    Decomposed<UserVec, Quaternion<f64>>,
+    Decomposed<UserVec, UserRot>,
     Decomposed<Vector3<Interval>, Quaternion<Interval>>,
 );
 
@@ -522,8 +534,6 @@ pub fn run_all(only: Option<&str>) -> ExoticReport {
     c!("rot=UserRot::Euler", 1.0f64, UserRot::Euler(1.0, -2.0, 3.5), v2);
     c!("rot=UserRot::Turn", 1.0f64, UserRot::Turn(200), v2);
     c!("rot=Collide{rot,disp,scale}", 4.0f64, Collide { rot: 1.0, disp: 2.0, scale: 3.0 }, v3);
-    c!("disp=UserVec", 1.0f64, Quaternion::new(0.5f64, 0.5, 0.5, 0.5), UserVec { a: -0.0, b: 1e-310 });
-    c!("disp=UserVec,rot=UserRot", 0.125f64, UserRot::Euler(0.0, 0.5, -0.0), UserVec { a: 3.0, b: 4.0 });
     c!("rot=Vec<u8>", 1.0f64, vec![0u8, 255, 7], v2);
     c!("rot=empty Vec", 1.0f64, Vec::<u8>::new(), v2);
     c!("rot=bool", 1.0f32, true, v3f);
@@ -537,10 +547,25 @@ pub fn run_all(only: Option<&str>) -> ExoticReport {
     c!("rot=Wrapping<i32>", 1.0f64, Wrapping(-5i32), v3);
     c!("rot=PhantomData", 1.0f64, PhantomData::<u8>, v3);
     c!("rot=nested Decomposed", 2.0f64, Decomposed { scale: 0.5f32, rot: Basis2::from_angle(Rad(0.5f32)), disp: Vector2::new(1.0f32, 2.0) }, v3);
-    c!("rot=Euler<f64>", 1.0f64, Euler { x: 0.1f64, y: -0.0, z: 3.0 }, v3);
     c!("rot=Vector3<Rad<f32>>", 1.0f64, Vector3::new(Rad(0.5f32), Rad(-0.0), Rad(3.0)), Vector1::new(9.0f64));
     c!("scale=i64::MIN", i64::MIN, Quaternion::new(1i64, 2, 3, 4), Vector3::new(i64::MAX, -1, 0));
     c!("scale=u64::MAX", u64::MAX, (1u8, -2i8), Vector2::new(u64::MAX, 0));
+    #[cfg(feature = "exotic-user-types")]
+    user_cases(&mut rep, only);
+    rep
+}
+
+/// Cases whose scalar / vector space is defined in the harness itself (see Cargo.toml on why they
+/// can be compiled out).
+#[cfg(feature = "exotic-user-types")]
+fn user_cases(rep: &mut ExoticReport, only: Option<&str>) {
+    macro_rules! c {
+        ($name:expr, $scale:expr, $rot:expr, $disp:expr) => {
+            case($name, Decomposed { scale: $scale, rot: $rot, disp: $disp }, rep, only)
+        };
+    }
+    c!("disp=UserVec", 1.0f64, Quaternion::new(0.5f64, 0.5, 0.5, 0.5), UserVec { a: -0.0, b: 1e-310 });
+    c!("disp=UserVec,rot=UserRot", 0.125f64, UserRot::Euler(0.0, 0.5, -0.0), UserVec { a: 3.0, b: 4.0 });
     // a user scalar with a partial order: scale and components that are unordered w.r.t. zero / each other
     let iv = Interval::new;
     c!(
@@ -555,5 +580,4 @@ pub fn run_all(only: Option<&str>) -> ExoticReport {
         Quaternion::new(iv(1.0, 1.0), iv(2.0, 2.5), iv(3.0, 3.5), iv(4.0, 4.5)),
         Vector3::new(iv(5.0, 6.0), iv(7.0, 8.0), iv(9.0, 10.0))
     );
-    rep
 }
